@@ -49,6 +49,7 @@ func (sp *uuidStringProvider) GetBlankNodeString(bn rdf.BlankNode) string {
 		}
 
 		sp.known[bn.Identifier] = value
+		index = value
 	}
 
 	sp.mutex.Unlock()
